@@ -36,6 +36,9 @@
 //!                                    `ArcField` (`.into()`) and the write goes through that handle
 //!   patch <chain> <value> [field<k>|arc<k>]        `Patch::patch`, likewise
 //!   kpush <kchain> <row> | kremove <kchain> <i> | kswap <kchain> <i> <j> | krev <kchain>   through `.write()`
+//!   hnew <chain> field|arc           a long-lived handle (`Field::from(..)` / `ArcField::from(..)`) of the accessor at
+//!                                    the end of the chain; answers `h=<id>`; chains of later ops may start with `h<id>`
+//!   race <k> <rounds>                k OS threads do the first tracked access to fresh paths together (own store)
 //!   poll <i>                         poll the (i mod len)-th woken effect task
 //!   idle                             poll woken tasks in spawn order until none is left
 //! Observable: `[w=<done|absent|none> ]r=<woken effect ids> l=<id:seen;…>` (the run log of this op).
@@ -428,6 +431,8 @@ enum Acc {
     Key(u32),
     /// field i of enum variant v
     Var(usize, usize),
+    /// only at the head of a chain as written in an op: start at the long-lived handle number id
+    H(usize),
 }
 type Chain = Vec<Acc>;
 
@@ -437,6 +442,9 @@ fn parse_chain(s: &str) -> Option<Chain> {
     }
     s.split('.')
         .map(|t| {
+            if let Some(r) = t.strip_prefix('h') {
+                return Some(Acc::H(r.parse().ok()?));
+            }
             if let Some(r) = t.strip_prefix('v') {
                 let (a, b) = r.split_once('_')?;
                 return Some(Acc::Var(a.parse().ok()?, b.parse().ok()?));
@@ -471,6 +479,7 @@ fn show_chain(c: &[Acc]) -> String {
             Acc::KFld(i) => format!("k{i}"),
             Acc::Key(k) => format!("@{k}"),
             Acc::Var(v, i) => format!("v{v}_{i}"),
+            Acc::H(i) => format!("h{i}"),
         })
         .collect::<Vec<_>>()
         .join(".")
@@ -504,6 +513,8 @@ type RFn = Box<dyn Fn(bool) -> String + Send + Sync>;
 type Er = Option<(usize, bool)>;
 
 enum Do<'a> {
+    /// keep the (already converted) `Field` / `ArcField` at the end of the chain for later use
+    MakeHandle,
     Reader(RHow),
     Write(&'a V, How),
     Patch(&'a V),
@@ -512,7 +523,10 @@ enum Do<'a> {
     KSwap(usize, usize),
     KRev,
 }
+/// a long-lived handle: continues the navigation from it
+type HFn = Arc<dyn Fn(&[Acc], &Do, Er) -> Out + Send + Sync>;
 enum Out {
+    Handle(HFn),
     Reader(RFn),
     Wrote(&'static str),
     Bad,
@@ -587,6 +601,34 @@ impl MaybePatch for En {
     }
 }
 
+/// how to go on from a value of this type (needed to continue from a handle)
+trait Nav: Sized {
+    fn nav<F: Node<Self>>(f: F, ch: &[Acc], op: &Do, er: Er, post: fn(V) -> V) -> Out;
+}
+macro_rules! nav_impl {
+    ($t:ty, |$f:ident, $ch:ident, $op:ident, $er:ident, $post:ident| $body:expr) => {
+        impl Nav for $t {
+            fn nav<F: Node<Self>>($f: F, $ch: &[Acc], $op: &Do, $er: Er, $post: fn(V) -> V) -> Out {
+                $body
+            }
+        }
+    };
+}
+nav_impl!(u32, |f, ch, op, _er, post| if ch.is_empty() { end(f, op, post) } else { Out::Bad });
+nav_impl!(Vec<Row>, |f, ch, op, _er, post| if ch.is_empty() { end(f, op, post) } else { Out::Bad });
+nav_impl!(Leaf, |f, ch, op, er, post| nav_leafst(f, ch, op, er, post));
+nav_impl!(Row, |f, ch, op, er, _post| nav_row(f, ch, op, er));
+nav_impl!(Mid, |f, ch, op, er, _post| nav_mid(f, ch, op, er));
+nav_impl!(Root, |f, ch, op, er, _post| nav_rootf(f, ch, op, er));
+nav_impl!(Option<Leaf>, |f, ch, op, er, _post| nav_opt(f, ch, op, er));
+nav_impl!(Vec<Leaf>, |f, ch, op, er, _post| nav_list(f, ch, op, er));
+nav_impl!(En, |f, ch, op, er, _post| nav_en(f, ch, op, er));
+nav_impl!(Attr, |f, ch, op, er, _post| nav_attr(f, ch, op, er));
+nav_impl!(SkipFirst, |f, ch, op, er, _post| nav_skf(f, ch, op, er));
+nav_impl!(SkipMid, |f, ch, op, er, _post| nav_skm(f, ch, op, er));
+nav_impl!(SkipLast, |f, ch, op, er, _post| nav_skl(f, ch, op, er));
+nav_impl!(Tup, |f, ch, op, er, _post| nav_tup(f, ch, op, er));
+
 fn id_v(v: V) -> V {
     v
 }
@@ -599,8 +641,9 @@ fn as_atom(v: V) -> V {
 }
 
 /// the accessor at the end of a chain
-fn end<T: Conv + MaybePatch + Clone + 'static, F: Node<T>>(f: F, op: &Do, post: fn(V) -> V) -> Out {
+fn end<T: Conv + MaybePatch + Nav + Clone + 'static, F: Node<T>>(f: F, op: &Do, post: fn(V) -> V) -> Out {
     match op {
+        Do::MakeHandle => Out::Handle(Arc::new(move |rest: &[Acc], op: &Do, er: Er| T::nav(f.clone(), rest, op, er, post))),
         Do::Reader(how) => {
             let how = *how;
             Out::Reader(Box::new(move |read| {
@@ -813,35 +856,47 @@ fn nav_en<F: Node<En>>(f: F, ch: &[Acc], op: &Do, er: Er) -> Out {
     }
 }
 
+fn nav_skf<F: Node<SkipFirst>>(sf: F, ch: &[Acc], op: &Do, er: Er) -> Out {
+    match ch {
+        [] => end(sf, op, id_v),
+        [Acc::Fld(1)] => go!(sf.a(), er, x, _e => end(x, op, id_v)),
+        [Acc::Fld(2)] => go!(sf.b(), er, x, _e => end(x, op, id_v)),
+        _ => Out::Bad,
+    }
+}
+fn nav_skm<F: Node<SkipMid>>(sm: F, ch: &[Acc], op: &Do, er: Er) -> Out {
+    match ch {
+        [] => end(sm, op, id_v),
+        [Acc::Fld(0)] => go!(sm.a(), er, x, _e => end(x, op, id_v)),
+        [Acc::Fld(2)] => go!(sm.b(), er, x, _e => end(x, op, id_v)),
+        [Acc::Fld(3), r2 @ ..] => go!(sm.c(), er, x, e3 => nav_leafst(x, r2, op, e3, id_v)),
+        _ => Out::Bad,
+    }
+}
+fn nav_skl<F: Node<SkipLast>>(sl: F, ch: &[Acc], op: &Do, er: Er) -> Out {
+    match ch {
+        [] => end(sl, op, id_v),
+        [Acc::Fld(0)] => go!(sl.a(), er, x, _e => end(x, op, id_v)),
+        [Acc::Fld(1)] => go!(sl.b(), er, x, _e => end(x, op, id_v)),
+        _ => Out::Bad,
+    }
+}
+fn nav_tup<F: Node<Tup>>(tu: F, ch: &[Acc], op: &Do, er: Er) -> Out {
+    match ch {
+        [] => end(tu, op, id_v),
+        [Acc::Fld(0)] => go!(tu.field0(), er, x, _e => end(x, op, id_v)),
+        [Acc::Fld(1), r2 @ ..] => go!(tu.field1(), er, x, e3 => nav_leafst(x, r2, op, e3, id_v)),
+        [Acc::Fld(2)] => go!(tu.field2(), er, x, _e => end(x, op, id_v)),
+        _ => Out::Bad,
+    }
+}
 fn nav_attr<F: Node<Attr>>(a: F, ch: &[Acc], op: &Do, er: Er) -> Out {
     match ch {
         [] => end(a, op, id_v),
-        [Acc::Fld(0), rest @ ..] => go!(a.sf(), er, sf, e2 => match rest {
-            [] => end(sf, op, id_v),
-            [Acc::Fld(1)] => go!(sf.a(), e2, x, _e => end(x, op, id_v)),
-            [Acc::Fld(2)] => go!(sf.b(), e2, x, _e => end(x, op, id_v)),
-            _ => Out::Bad,
-        }),
-        [Acc::Fld(1), rest @ ..] => go!(a.sm(), er, sm, e2 => match rest {
-            [] => end(sm, op, id_v),
-            [Acc::Fld(0)] => go!(sm.a(), e2, x, _e => end(x, op, id_v)),
-            [Acc::Fld(2)] => go!(sm.b(), e2, x, _e => end(x, op, id_v)),
-            [Acc::Fld(3), r2 @ ..] => go!(sm.c(), e2, x, e3 => nav_leafst(x, r2, op, e3, id_v)),
-            _ => Out::Bad,
-        }),
-        [Acc::Fld(2), rest @ ..] => go!(a.sl(), er, sl, e2 => match rest {
-            [] => end(sl, op, id_v),
-            [Acc::Fld(0)] => go!(sl.a(), e2, x, _e => end(x, op, id_v)),
-            [Acc::Fld(1)] => go!(sl.b(), e2, x, _e => end(x, op, id_v)),
-            _ => Out::Bad,
-        }),
-        [Acc::Fld(3), rest @ ..] => go!(a.tu(), er, tu, e2 => match rest {
-            [] => end(tu, op, id_v),
-            [Acc::Fld(0)] => go!(tu.field0(), e2, x, _e => end(x, op, id_v)),
-            [Acc::Fld(1), r2 @ ..] => go!(tu.field1(), e2, x, e3 => nav_leafst(x, r2, op, e3, id_v)),
-            [Acc::Fld(2)] => go!(tu.field2(), e2, x, _e => end(x, op, id_v)),
-            _ => Out::Bad,
-        }),
+        [Acc::Fld(0), rest @ ..] => go!(a.sf(), er, x, e2 => nav_skf(x, rest, op, e2)),
+        [Acc::Fld(1), rest @ ..] => go!(a.sm(), er, x, e2 => nav_skm(x, rest, op, e2)),
+        [Acc::Fld(2), rest @ ..] => go!(a.sl(), er, x, e2 => nav_skl(x, rest, op, e2)),
+        [Acc::Fld(3), rest @ ..] => go!(a.tu(), er, x, e2 => nav_tup(x, rest, op, e2)),
         [Acc::Fld(4), rest @ ..] => go!(a.en(), er, en, e2 => nav_en(en, rest, op, e2)),
         _ => Out::Bad,
     }
@@ -908,6 +963,7 @@ fn logical_get(v: &V, ch: &[Acc]) -> LSeen {
     let Some((a, rest)) = ch.split_first() else { return LSeen::Val(v.clone()) };
     let V::Node(_, xs) = v else { return LSeen::Absent };
     match a {
+        Acc::H(_) => LSeen::Absent, // logical chains contain no handles
         Acc::Fld(i) | Acc::Idx(i) | Acc::KFld(i) => match xs.get(*i) {
             Some(c) => logical_get(c, rest),
             None => LSeen::Absent,
@@ -937,7 +993,7 @@ fn guard_absent(v: &V, ch: &[Acc]) -> bool {
     let mut cur = v;
     for a in ch {
         match a {
-            Acc::Key(_) => return false,
+            Acc::Key(_) | Acc::H(_) => return false,
             Acc::Fld(i) | Acc::Idx(i) | Acc::KFld(i) => match cur {
                 V::Node(_, xs) if *i < xs.len() => cur = &xs[*i],
                 _ => return true,
@@ -1027,6 +1083,34 @@ struct Case {
     _imms: Vec<ImmediateEffect>,
     /// per reader: has its field ever existed (keyed item: has its key ever been in the collection)?
     ever: Vec<bool>,
+    /// long-lived handles: the chain they were made from, and how to go on from them
+    handles: Vec<(Chain, HFn)>,
+}
+
+/// a chain as written in an op (`h<id>` only at the head) and the logical chain it stands for
+fn parse_hchain(c: &Case, s: &str) -> Option<(Chain, Chain)> {
+    let raw = parse_chain(s)?;
+    if raw.iter().skip(1).any(|a| matches!(a, Acc::H(_))) {
+        return None;
+    }
+    let full = match raw.first() {
+        Some(Acc::H(id)) => {
+            let (hc, _) = c.handles.get(*id)?;
+            [&hc[..], &raw[1..]].concat()
+        }
+        _ => raw.clone(),
+    };
+    Some((raw, full))
+}
+fn via_handle(raw: &[Acc]) -> bool {
+    matches!(raw.first(), Some(Acc::H(_)))
+}
+/// navigation from the store or from a handle
+fn nav_any(c: &Case, raw: &[Acc], op: &Do, era: Er) -> Out {
+    match raw.first() {
+        Some(Acc::H(id)) => (c.handles[*id].1)(&raw[1..], op, None),
+        _ => nav_root(c.store, raw, op, era),
+    }
 }
 
 fn snapshot(c: &Case) -> V {
@@ -1148,6 +1232,7 @@ fn new_case(root: Root) -> Case {
         log: Default::default(),
         _imms: vec![],
         ever: vec![],
+        handles: vec![],
     }
 }
 
@@ -1163,9 +1248,9 @@ fn update_ever(c: &mut Case) {
     }
 }
 
-fn add_reader(c: &mut Case, chain: Chain, how: RHow, imm: bool) -> bool {
+fn add_reader(c: &mut Case, raw: &Chain, chain: Chain, how: RHow, imm: bool) -> bool {
     // the accessor (and an erased `Field` / `ArcField` handle, if asked for) is built once, here
-    let Out::Reader(f) = nav_root(c.store, &chain, &Do::Reader(how), None) else { return false };
+    let Out::Reader(f) = nav_any(c, raw, &Do::Reader(how), None) else { return false };
     let id = c.readers.len();
     let rel = match how {
         RHow::Map | RHow::Invert | RHow::Variant => chain[..opt_prefix(&chain).unwrap_or(chain.len())].to_vec(),
@@ -1232,14 +1317,14 @@ fn parse_how(s: &str, ch: &[Acc]) -> Option<RHow> {
     }
 }
 
-fn do_write(c: &mut Case, chain: &Chain, op: Do, is_patch: bool, newv: Option<&V>, era: Er) -> String {
+fn do_write(c: &mut Case, raw: &Chain, chain: &Chain, op: Do, is_patch: bool, newv: Option<&V>, era: Er) -> String {
     let snap = snapshot(c);
     let rb = ready_ids(c);
     let old = logical_get(&snap, chain);
     let wrote: &'static str = if guard_absent(&snap, chain) {
         "absent"
     } else {
-        match nav_root(c.store, chain, &op, era) {
+        match nav_any(c, raw, &op, era) {
             Out::Wrote(w) => w,
             _ => return "bad-op".into(),
         }
@@ -1274,7 +1359,93 @@ fn vec_len(c: &Case, chain: &Chain) -> Option<usize> {
     }
 }
 
+// ---------------------------------------------------------------- threads: the trigger table
+
+#[derive(Store, Clone, Debug, PartialEq)]
+pub struct RaceTable {
+    rows: Vec<Leaf>,
+}
+
+/// `race <k> <rounds>`: the trigger table must hold ONE trigger per path also when several threads do the
+/// first tracked access to a path at the same time.  `k` OS threads rendezvous at each of `16 * rounds`
+/// rows nobody has looked at before and evaluate a memo reading `rows[i].v` / `rows[i].w` there; then the row
+/// is replaced and every memo must recompute (a memo subscribed to an orphaned trigger keeps its cached
+/// value).  Bounded by a deadline; an unfinished run is inconclusive (ok).  On the unchanged code this can
+/// never fail, whatever the load; a failure is a lost notification.
+fn race(k: usize, rounds: usize) -> &'static str {
+    use reactive_graph::computed::ArcMemo;
+    use std::sync::atomic::{AtomicBool, AtomicUsize, Ordering};
+    const BATCH: usize = 16;
+    let n = rounds * BATCH;
+    let store = Store::new(RaceTable { rows: vec![Leaf { v: 0, w: 0 }; n] });
+    let arrived: Vec<AtomicUsize> = (0..n).map(|_| AtomicUsize::new(0)).collect();
+    let abort = AtomicBool::new(false);
+    let deadline = std::time::Instant::now() + std::time::Duration::from_secs(20);
+    let memos: Mutex<Vec<(usize, ArcMemo<u32>)>> = Mutex::new(Vec::new());
+    std::thread::scope(|sc| {
+        for t in 0..k {
+            let (arrived, abort, memos) = (&arrived, &abort, &memos);
+            sc.spawn(move || {
+                for i in 0..n {
+                    let memo = ArcMemo::new(move |_| {
+                        let row = store.rows().at_unkeyed(i);
+                        if t % 2 == 0 {
+                            row.v().get()
+                        } else {
+                            row.w().get()
+                        }
+                    });
+                    // all threads get to row i together
+                    arrived[i].fetch_add(1, Ordering::SeqCst);
+                    let mut spins = 0u32;
+                    while arrived[i].load(Ordering::SeqCst) < k {
+                        spins += 1;
+                        if spins % 1024 == 0 {
+                            if abort.load(Ordering::Relaxed) || std::time::Instant::now() > deadline {
+                                abort.store(true, Ordering::Relaxed);
+                                return;
+                            }
+                            std::thread::yield_now();
+                        } else {
+                            std::hint::spin_loop();
+                        }
+                    }
+                    let _ = memo.get_untracked();
+                    memos.lock().unwrap().push((i, memo));
+                }
+            });
+        }
+    });
+    let inconclusive = abort.load(Ordering::Relaxed);
+    let mut lost = false;
+    let memos = memos.into_inner().unwrap();
+    let done: std::collections::BTreeSet<usize> = memos.iter().map(|m| m.0).collect();
+    for i in done {
+        store.rows().at_unkeyed(i).set(Leaf { v: 7, w: 7 });
+    }
+    for (_, m) in &memos {
+        if m.get_untracked() != 7 {
+            lost = true;
+        }
+    }
+    store.dispose();
+    if lost {
+        "raced ## fail lost-notification"
+    } else {
+        if inconclusive {
+            eprintln!("c16: race op ran into its deadline (inconclusive)");
+        }
+        "raced ## ok"
+    }
+}
+
 fn op_line(case: &mut Option<Case>, w: &[&str]) -> String {
+    if let ["race", k, rounds] = w {
+        return match (k.parse::<usize>(), rounds.parse::<usize>()) {
+            (Ok(k), Ok(r)) if (2..=8).contains(&k) && (1..=200).contains(&r) => race(k, r).into(),
+            _ => "bad-op".into(),
+        };
+    }
     if let ["init", v] = w {
         return match parse_v(v).and_then(|v| Root::from_v(&v)) {
             Some(r) => {
@@ -1300,7 +1471,7 @@ fn op_line(case: &mut Option<Case>, w: &[&str]) -> String {
             render(c, "", &log, v)
         }
         [kind @ ("eff" | "effi" | "imm" | "immi"), rest @ ..] if rest.len() == 1 || rest.len() == 2 => {
-            let Some(ch) = parse_chain(rest[0]) else { return "bad-op".into() };
+            let Some((raw, ch)) = parse_hchain(c, rest[0]) else { return "bad-op".into() };
             if !chain_ok(&ch) {
                 return "bad-op".into();
             }
@@ -1311,10 +1482,13 @@ fn op_line(case: &mut Option<Case>, w: &[&str]) -> String {
                 (true, Some(_)) => return "bad-op".into(),
             };
             let Some(how) = parse_how(how_s, &ch) else { return "bad-op".into() };
+            if via_handle(&raw) && matches!(how, RHow::Field(_) | RHow::Arc(_)) {
+                return "bad-op".into();
+            }
             if how != RHow::Variant && !vars_match(&snapshot(c), &ch) {
                 return "bad-op".into();
             }
-            if !add_reader(c, ch, how, kind.starts_with("imm")) {
+            if !add_reader(c, &raw, ch, how, kind.starts_with("imm")) {
                 return "bad-op".into();
             }
             update_ever(c);
@@ -1323,22 +1497,22 @@ fn op_line(case: &mut Option<Case>, w: &[&str]) -> String {
             render(c, "", &log, v)
         }
         ["krev", ch] => {
-            let Some(ch) = parse_chain(ch) else { return "bad-op".into() };
+            let Some((raw, ch)) = parse_hchain(c, ch) else { return "bad-op".into() };
             if !chain_ok(&ch) || !ends_keyed(&ch) || vec_len(c, &ch).is_none() {
                 return "bad-op".into();
             }
-            do_write(c, &ch, Do::KRev, false, None, None)
+            do_write(c, &raw, &ch, Do::KRev, false, None, None)
         }
         [kind @ ("set" | "upd" | "wr" | "patch"), ch, v, rest @ ..] if rest.len() <= 1 => {
-            let (Some(ch), Some(v)) = (parse_chain(ch), parse_v(v)) else { return "bad-op".into() };
+            let (Some((raw, ch)), Some(v)) = (parse_hchain(c, ch), parse_v(v)) else { return "bad-op".into() };
             if !chain_ok(&ch) {
                 return "bad-op".into();
             }
             let era: Er = match rest.first() {
                 None => None,
                 Some(e) => match parse_era(e, &ch) {
-                    Some(e) => e,
-                    None => return "bad-op".into(),
+                    Some(e) if !via_handle(&raw) => e,
+                    _ => return "bad-op".into(),
                 },
             };
             if !vars_match(&snapshot(c), &ch) {
@@ -1352,37 +1526,51 @@ fn op_line(case: &mut Option<Case>, w: &[&str]) -> String {
                     // `Patch::patch` notifies while it holds the write lock: an ImmediateEffect would deadlock
                     return "unsupported".into();
                 }
-                return do_write(c, &ch, Do::Patch(&v), true, Some(&v), era);
+                return do_write(c, &raw, &ch, Do::Patch(&v), true, Some(&v), era);
             }
             let how = match *kind {
                 "set" => How::Set,
                 "upd" => How::Upd,
                 _ => How::Wr,
             };
-            do_write(c, &ch, Do::Write(&v, how), false, None, era)
+            do_write(c, &raw, &ch, Do::Write(&v, how), false, None, era)
+        }
+        ["hnew", ch, kind @ ("field" | "arc")] => {
+            // a long-lived `Field` / `ArcField` handle of the accessor at the end of the chain
+            let Some((raw, ch)) = parse_hchain(c, ch) else { return "bad-op".into() };
+            if via_handle(&raw) || !chain_ok(&ch) || ends_keyed(&ch) || !vars_match(&snapshot(c), &ch) {
+                return "bad-op".into();
+            }
+            match nav_root(c.store, &ch, &Do::MakeHandle, Some((ch.len(), *kind == "arc"))) {
+                Out::Handle(h) => {
+                    c.handles.push((ch, h));
+                    format!("h={}", c.handles.len() - 1)
+                }
+                _ => "bad-op".into(),
+            }
         }
         ["kpush", ch, v] => {
-            let (Some(ch), Some(v)) = (parse_chain(ch), parse_v(v)) else { return "bad-op".into() };
+            let (Some((raw, ch)), Some(v)) = (parse_hchain(c, ch), parse_v(v)) else { return "bad-op".into() };
             if !chain_ok(&ch) || !ends_keyed(&ch) || vec_len(c, &ch).is_none() {
                 return "bad-op".into();
             }
-            do_write(c, &ch, Do::KPush(&v), false, None, None)
+            do_write(c, &raw, &ch, Do::KPush(&v), false, None, None)
         }
         ["kremove", ch, i] => {
-            let (Some(ch), Ok(i)) = (parse_chain(ch), i.parse::<usize>()) else { return "bad-op".into() };
+            let (Some((raw, ch)), Ok(i)) = (parse_hchain(c, ch), i.parse::<usize>()) else { return "bad-op".into() };
             if !chain_ok(&ch) || !ends_keyed(&ch) || !vec_len(c, &ch).is_some_and(|n| i < n) {
                 return "bad-op".into();
             }
-            do_write(c, &ch, Do::KRemove(i), false, None, None)
+            do_write(c, &raw, &ch, Do::KRemove(i), false, None, None)
         }
         ["kswap", ch, i, j] => {
-            let (Some(ch), Ok(i), Ok(j)) = (parse_chain(ch), i.parse::<usize>(), j.parse::<usize>()) else {
+            let (Some((raw, ch)), Ok(i), Ok(j)) = (parse_hchain(c, ch), i.parse::<usize>(), j.parse::<usize>()) else {
                 return "bad-op".into();
             };
             if !chain_ok(&ch) || !ends_keyed(&ch) || !vec_len(c, &ch).is_some_and(|n| i < n && j < n) {
                 return "bad-op".into();
             }
-            do_write(c, &ch, Do::KSwap(i, j), false, None, None)
+            do_write(c, &raw, &ch, Do::KSwap(i, j), false, None, None)
         }
         _ => "bad-op".into(),
     }
@@ -1602,6 +1790,7 @@ fn lget<'a>(v: &'a V, ch: &[Acc]) -> Option<&'a V> {
     let Some((a, rest)) = ch.split_first() else { return Some(v) };
     let V::Node(_, xs) = v else { return None };
     match a {
+        Acc::H(_) => None,
         Acc::Fld(i) | Acc::Idx(i) | Acc::KFld(i) => lget(xs.get(*i)?, rest),
         Acc::Key(k) => lget(xs.iter().find(|x| key_of(x) == *k)?, rest),
         Acc::Var(n, i) => {
@@ -1620,6 +1809,7 @@ fn lset(v: &mut V, ch: &[Acc], nv: V) -> bool {
     };
     let V::Node(_, xs) = v else { return false };
     let c = match a {
+        Acc::H(_) => None,
         Acc::Fld(i) | Acc::Idx(i) | Acc::KFld(i) => xs.get_mut(*i),
         Acc::Key(k) => xs.iter_mut().find(|x| key_of(x) == *k),
         Acc::Var(n, i) => {
@@ -2265,6 +2455,125 @@ fn gen_attr_patch(r: &mut Rng) -> GenCase {
     g
 }
 
+/// long-lived `Field` / `ArcField` handles (of plain fields, list elements, keyed items and fields below
+/// them), used for reads, writes and patches while the keyed collections are reordered and grow (keys are
+/// never removed here: a handle of an item is only meaningful while its key stays)
+fn gen_handles(r: &mut Rng) -> GenCase {
+    let mut g = GenCase { lines: vec![], tags: vec!["long-lived-handles"] };
+    let mut shadow = init_root(r, &[10, 11, 12], &[20, 21], 2, true);
+    g.lines.push(format!("init {}", show(&shadow)));
+    let mut next_key = [30u32, 40u32];
+    let chains_now = |sh: &V| -> Vec<Chain> {
+        let keys = |base: &[Acc]| -> Vec<u32> {
+            match lget(sh, base) {
+                Some(V::Node(_, xs)) => xs.iter().map(key_of).collect(),
+                _ => vec![],
+            }
+        };
+        all_chains(&keys(&KROOT), &keys(&KMID), 2).into_iter().filter(|c| vars_match(sh, c)).collect()
+    };
+    let all0 = chains_now(&shadow);
+    let mut handles: Vec<Chain> = vec![];
+    for _ in 0..r.range(2, 6) {
+        let cands: Vec<&Chain> = all0.iter().filter(|c| !ends_keyed(c) && ty_of(c) != Some(Ty::U)).collect();
+        let hc = (*r.pick(&cands)).clone();
+        g.lines.push(format!("hnew {} {}", show_chain(&hc), r.pick(&["field", "arc"])));
+        if hc.iter().any(|a| matches!(a, Acc::Key(_))) {
+            g.tag("handle-of-keyed-item")
+        }
+        handles.push(hc);
+    }
+    // the way a chain is written: through a handle that is a prefix of it, or directly
+    let written = |r: &mut Rng, c: &Chain, handles: &Vec<Chain>| -> String {
+        let via: Vec<usize> = (0..handles.len()).filter(|i| c.starts_with(&handles[*i])).collect();
+        if !via.is_empty() && r.chance(3, 4) {
+            let i = *r.pick(&via);
+            let rest = &c[handles[i].len()..];
+            if rest.is_empty() {
+                format!("h{i}")
+            } else {
+                format!("h{i}.{}", show_chain(rest))
+            }
+        } else {
+            show_chain(c)
+        }
+    };
+    let use_imm = r.chance(1, 6);
+    for _ in 0..r.range(3, 8) {
+        let c = r.pick(&all0).clone();
+        let w = written(r, &c, &handles);
+        let (how, htag) = if w.starts_with('h') {
+            let hs = ["", "read", "with", "track"];
+            ((*r.pick(&hs)).to_string(), "how-through-handle")
+        } else {
+            pick_how(r, &c, &shadow)
+        };
+        g.tag(htag);
+        let kind = if use_imm && r.chance(1, 2) { "imm" } else { "eff" };
+        g.lines.push(format!("{kind} {w} {how}").trim_end().to_string());
+    }
+    g.lines.push("idle".into());
+    for _ in 0..r.range(4, 12) {
+        match r.below(10) {
+            0 | 1 => {
+                // reorder / grow a keyed collection
+                let which = r.below(2);
+                let base: Chain = if which == 0 { KROOT.to_vec() } else { KMID.to_vec() };
+                let V::Node(_, rows) = lget(&shadow, &base).unwrap().clone() else { unreachable!() };
+                let mut rows = rows;
+                let bw = written(r, &base, &handles);
+                match r.below(3) {
+                    0 if rows.len() >= 2 => {
+                        let (i, j) = (r.below(rows.len()), r.below(rows.len()));
+                        g.lines.push(format!("kswap {bw} {i} {j}"));
+                        rows.swap(i, j);
+                        g.tag("reorder");
+                    }
+                    1 if !rows.is_empty() => {
+                        g.lines.push(format!("krev {bw}"));
+                        rows.reverse();
+                        g.tag("reorder");
+                    }
+                    _ => {
+                        next_key[which] += 1;
+                        let row = g_row(r, next_key[which] - 1);
+                        g.lines.push(format!("kpush {bw} {}", show(&row)));
+                        rows.push(row);
+                        g.tag("push");
+                    }
+                }
+                lset(&mut shadow, &base, V::Node(Tag::KVec, rows));
+            }
+            _ => {
+                let all = chains_now(&shadow);
+                let cands: Vec<&Chain> = all.iter().filter(|c| !is_row_id(c)).collect();
+                let c = (*r.pick(&cands)).clone();
+                let Some(old) = lget(&shadow, &c) else { continue };
+                let t = ty_of(&c).unwrap();
+                let nv = mutate(t, old, r);
+                let w = written(r, &c, &handles);
+                if w.starts_with('h') {
+                    g.tag("write-through-handle")
+                }
+                if !use_imm && t != Ty::En && r.chance(1, 3) {
+                    g.lines.push(format!("patch {w} {}", show(&nv)));
+                    g.tag("patch");
+                } else {
+                    let how = *r.pick(&["set", "upd", "wr"]);
+                    g.lines.push(format!("{how} {w} {}", show(&nv)));
+                }
+                lset(&mut shadow, &c, nv);
+            }
+        }
+        match r.below(4) {
+            0 | 1 | 2 => g.lines.push("idle".into()),
+            _ => g.lines.push(format!("poll {}", r.below(8))),
+        }
+    }
+    g.lines.push("idle".into());
+    g
+}
+
 fn ch_has_idx(ch: &[Acc]) -> bool {
     ch.iter().any(|a| matches!(a, Acc::Idx(_)))
 }
@@ -2307,19 +2616,27 @@ fn gen(seed: u64, n: usize, path: &str, _tier: &str) -> std::io::Result<()> {
             i += 1;
         }
     }
+    // threads: the trigger table keeps one trigger per path under concurrent first accesses
+    for (k, rounds) in [(4usize, 40usize), (2, 40)] {
+        writeln!(f, "case {}~threads", i)?;
+        writeln!(f, "race {k} {rounds}")?;
+        i += 1;
+    }
     while i < n {
-        let flavour = match r.below(14) {
+        let flavour = match r.below(16) {
             0..=2 => 0,
             3 | 4 => 1,
             5 | 6 => 2,
             7 => 3,
             8 | 9 => 4,
             10 | 11 => 5,
-            _ => 6,
+            12 | 13 => 6,
+            _ => 7,
         };
         let g = match flavour {
             5 => gen_option_cycle(&mut r),
             6 => gen_attr_patch(&mut r),
+            7 => gen_handles(&mut r),
             _ => gen_history(&mut r, flavour),
         };
         emit(&mut f, g, i)?;
